@@ -600,4 +600,6 @@ def run_standard(spec, tier, seed, replay=None):
         "trusted_base": ["Coq 8.16.1 kernel; vm_compute in finite/witness lemmas; no native_compute"] + spec.get("trusted", []),
         "known_classes_hit": rep.known_hits,
     })
+    if spec.get("explanation"):
+        cov["explanation"] = spec["explanation"]
     return rep.finish(spec.get("level", "proof"), cov, spec.get("assumptions", []))
